@@ -20,6 +20,9 @@ EXPLANATION = (
     "(needs a reference semantics).")
 
 MIN_MASK_ENVS = 21
+# environments whose mask and step-side validity are conjunct-for-conjunct identical on the pinned tree (the
+# reference for later changes); "noop-clause": the step side additionally tests action != NOOP
+REFERENCE_EQUIVALENT = {"Knapsack": "exact", "TSP": "exact", "Minesweeper": "exact", "SlidingTilePuzzle": "exact", "Connector": "noop-clause"}
 
 
 def check(tier: str) -> Result:
@@ -96,6 +99,11 @@ def check(tier: str) -> Result:
             nv = sf.new[f_]
             if nv.kind == "choice" and nv.args[0] == "cond" and contains(nv.args[1], ea.action) and not any(nv.args[1] is c[1] for c in cands):
                 cands.append((f"guard of the update of State.{f_}", nv.args[1]))
+        from .c05 import identity_guards
+        for f_ in sf.fields:
+            for g in identity_guards(sf.new[f_], sf.old[f_]):
+                if contains(g, ea.action) and not any(g is c[1] for c in cands):
+                    cands.append((f"guard keeping State.{f_} unchanged", g))
         try:
             for c in last_conditions(ea):
                 n = negand(c)
@@ -110,6 +118,21 @@ def check(tier: str) -> Result:
             mo = old_mask(ea, sf, m)
             for name, v in cands:
                 ok, w = compare(mo, v, ea.action)
+                if ok is None and w.startswith("EXTRA") and ea.cls.name in REFERENCE_EQUIVALENT:
+                    from .validity import LAST_DIFF
+                    mo_only, st_only = set(LAST_DIFF.get("mask_only", ())), set(LAST_DIFF.get("step_only", ()))
+                    # documented extra clause on the step side: `action != NOOP` (the no-op is always masked in)
+                    noop = {f for f in st_only if f[0] == "cmp" and f[4] == "!=" and set(f[1]) | set(f[2]) == {ea.action.id}}
+                    if REFERENCE_EQUIVALENT[ea.cls.name] == "noop-clause":
+                        st_only -= noop
+                    if not mo_only and not st_only:
+                        ok, w = True, "same conjuncts; the step side additionally requires action != NOOP (the no-op is always legal)"
+                    elif mo_only:
+                        ok, w = False, (f"the mask has {len(mo_only)} clause(s) that the step-side validity lacks: an action the mask forbids is still "
+                                        f"executed by step")
+                    else:
+                        ok, w = False, (f"the step-side validity has {len(st_only)} clause(s) that the mask lacks: an action the mask allows is "
+                                        f"rejected or ignored by step")
                 if ok is True:
                     verdict, why, which = True, w, name
                     break
